@@ -160,7 +160,7 @@ class Inliner:
             return d, None
         return None, None
 
-    def splice(self, d, inst, depth, stack, unwind_to):
+    def splice(self, d, inst, depth, stack, unwind_to, site_stack=()):
         g = self.facts.fns[d]
         raw = g.mir
         rblocks = raw["blocks"]
@@ -175,7 +175,7 @@ class Inliner:
         iid = inst["id"] if inst else None
         for i, b in enumerate(rblocks):
             nb = {"cleanup": b["cleanup"], "stmts": [_ren_stmt(s, lb, pb) for s in b["stmts"]],
-                  "term": _ren_term(b["term"], lb, bb0, pb, unwind_to), "src": d, "inst": iid, "obb": i, "file": raw["file"], "depth": depth}
+                  "term": _ren_term(b["term"], lb, bb0, pb, unwind_to), "src": d, "inst": iid, "obb": i, "file": raw["file"], "depth": depth, "sites": site_stack}
             self.blocks.append(nb)
         self.inlined.append((depth, d))
         for i, b in enumerate(rblocks):
@@ -243,7 +243,7 @@ class Inliner:
                 self.skipped[cd] = "argument count mismatch"
                 continue
             uw = nt["unwind"] if isinstance(nt.get("unwind"), int) else None
-            cbb0, clb = self.splice(cd, ci, depth + 1, stack + [d], uw)
+            cbb0, clb = self.splice(cd, ci, depth + 1, stack + [d], uw, tuple(site_stack) + ((d, i),))
             assert clb == clb_next
             nb["stmts"] = nb["stmts"] + pre
             nb["inl_call"] = nt
